@@ -18,7 +18,8 @@ type Process struct {
 	endTime   time.Time
 	exitHooks ExitHooks
 	done      chan struct{}
-	wait      sync.WaitGroup
+	children  int        // forked children that have not exited yet
+	join      *sync.Cond // signalled when children drops to zero; uses mu
 	mu        sync.RWMutex
 	parent    *Process
 }
@@ -35,12 +36,14 @@ var _ context.Context = (*Process)(nil)
 
 // New creates and returns a new Process instance with an initial state.
 func New() *Process {
-	return &Process{
+	p := &Process{
 		id:        uuid.Must(uuid.NewV7()),
 		data:      make(map[any]any),
 		startTime: time.Now(),
 		done:      make(chan struct{}),
 	}
+	p.join = sync.NewCond(&p.mu)
+	return p
 }
 
 // ID returns the unique identifier of the process.
@@ -151,14 +154,22 @@ func (p *Process) Done() <-chan struct{} {
 	return p.done
 }
 
-// Join waits for all child processes to complete.
+// Join waits for all child processes to complete. It may be called while other goroutines
+// fork further children: it returns at a moment at which no forked child is running.
 func (p *Process) Join() {
-	p.wait.Wait()
+	p.mu.Lock()
+	defer p.mu.Unlock()
+
+	for p.children > 0 {
+		p.join.Wait()
+	}
 }
 
 // Fork creates a new child process that inherits data and context from the parent.
 func (p *Process) Fork() *Process {
-	p.wait.Add(1)
+	p.mu.Lock()
+	p.children++
+	p.mu.Unlock()
 
 	child := &Process{
 		id:      uuid.Must(uuid.NewV7()),
@@ -166,12 +177,18 @@ func (p *Process) Fork() *Process {
 		endTime: time.Now(),
 		exitHooks: []ExitHook{
 			ExitFunc(func(err error) {
-				p.wait.Done()
+				p.mu.Lock()
+				defer p.mu.Unlock()
+
+				if p.children--; p.children == 0 {
+					p.join.Broadcast()
+				}
 			}),
 		},
 		done:   make(chan struct{}),
 		parent: p,
 	}
+	child.join = sync.NewCond(&child.mu)
 	p.AddExitHook(child)
 	return child
 }
